@@ -36,6 +36,7 @@
                  Found later (second round, reproducers in vlib/c12_seeds.py, repairs /tmp/fixes/c12b-*.patch):
                    crash.base_cycle_tag_lookup, crash.meta_without_value, crash.api_grpc_error_response,
                    crash.grpc_response_message_empty_dsl, crash.enum_default_uncomparable, crash.extend_cycle_through_attribute
+                 Third round (parent / child services): crash.parent_cycle (/tmp/fixes/c12b-8-parent-cycle.patch)
      accept.*    kinds of dangling references the real code accepts.  Enabled -> Evaluate may accept them.
                  Found: accept.body_attribute (Body(func) attributes with an empty payload), accept.response_tag (Tag on a
                  result attribute that does not exist), accept.error_response (an API-level gRPC Response for an error nobody
@@ -48,7 +49,7 @@ EXTENDS Integers, Sequences, FiniteSets, TLC
 CONSTANTS Deviations,     \* named departures of the code from the design that are switched on
           Fns,            \* the functions the generator may call (a subset of DOMAIN FT)
           Pools,          \* "min" / "tiny" / "small": a few tokens per argument (exhaustive runs); "full": all of them; "doc": documented uses only; "refs": documented uses plus spare names;
-                          \* "sec" / "rec": the tokens of the focused walks around security scopes / recursive user types
+                          \* "sec" / "rec" / "par": the tokens of the focused walks around security scopes / recursive user types / parent and child services
           MaxCalls, MinCalls, MaxDepth, MaxMisplaced,
           MaxTop,         \* at most this many top-level calls (the rest of the budget goes into nesting)
           MinKids,        \* a func() does not return before it made this many calls (while the budget lasts)
@@ -109,7 +110,7 @@ FT == [
       {"-"},
       {"plain"}),
   CanonicalMethod                |-> E({"SvcHTTP"}, "",
-      {"", "m1", "m2", "nosuch"},
+      {"", "m1", "m2", "nosuch", "show"},
       {"-"},
       {"plain"}),
   ClientCredentialsFlow          |-> E({"Scheme"}, "",
@@ -309,7 +310,7 @@ FT == [
       {"-"},
       {"fn", "nilfn"}),
   Method                         |-> E({"Service"}, "Method",
-      {"", "m1", "m2"},
+      {"", "m1", "m2", "show"},
       {"-"},
       {"fn", "nilfn"}),
   MinLength                      |-> E({"Attr"}, "",
@@ -369,7 +370,7 @@ FT == [
       {"-", "nil", "wrongInt"},
       {"fn", "nilfn"}),
   Parent                         |-> E({"SvcHTTP"}, "",
-      {"", "nosuch", "s1", "s2"},
+      {"", "nosuch", "s1", "s2", "s3"},
       {"-"},
       {"plain"}),
   Password                       |-> E({"Attr"}, "Attr",
@@ -441,7 +442,7 @@ FT == [
       {"-"},
       {"fn", "many", "nilfn", "plain"}),
   Service                        |-> E({"Top"}, "Service",
-      {"", "s1", "s2"},
+      {"", "s1", "s2", "s3"},
       {"-"},
       {"fn", "nilfn"}),
   Services                       |-> E({"Server"}, "",
@@ -579,7 +580,11 @@ MinTok == {"-", "a", "zz", "s1", "m1", "e1", "sc1", "R1", "plain", "fn", "200", 
 SecTok == {"-", "a", "s1", "m1", "sc1", "api:read", "api:write", "nosuch", "plain", "fn", "/x"}
 \* recursion walk: user types that reach themselves by name or by value, through an attribute, an array or a map, directly or through each other
 RecTok == {"-", "a", "b", "s1", "m1", "e1", "T1", "T2", "nT1", "nT2", "ArrT1", "ArrT2", "ArrnT1", "ArrnT2", "MapST1", "MapSnT1", "MapSnT2", "plain", "fn", "/x"}
+\* parent walk: up to three services that name each other (or nobody) as parent, canonical methods ("show" is the default one), relative,
+\* parameterised and absolute paths
+ParTok == {"-", "a", "s1", "s2", "s3", "m1", "show", "nosuch", "/", "/x", "/x/{a}", "//abs/{a}", "plain", "fn"}
 Pool(S) == IF Pools = "full" THEN S
+           ELSE IF Pools = "par" THEN (LET I == S \cap ParTok IN IF I = {} THEN {CHOOSE x \in S : TRUE} ELSE I)
            ELSE IF Pools = "sec" THEN (LET I == S \cap SecTok IN IF I = {} THEN {CHOOSE x \in S : TRUE} ELSE I)
            ELSE IF Pools = "rec" THEN (LET I == S \cap RecTok IN IF I = {} THEN {CHOOSE x \in S : TRUE} ELSE I)
            ELSE IF Pools = "min" THEN (LET I == S \cap MinTok IN IF I = {} THEN {CHOOSE x \in S : TRUE} ELSE I)
@@ -785,6 +790,14 @@ ExtendEdges(ns) == {e \in UserToks \X UserToks : \E i \in Idx(ns) :
 ExtendStep(ns, S) == S \cup {e[2] : e \in {x \in ExtendEdges(ns) : x[1] \in S}}
 ExtendReach(ns, t) == LET S1 == {e[2] : e \in {x \in ExtendEdges(ns) : x[1] = t}}
                       IN ExtendStep(ns, ExtendStep(ns, ExtendStep(ns, S1)))       \* four user type tokens: three more steps close it
+\* the services a service reaches through Parent calls (in the HTTP block of Service(name, ...))
+SvcToks == {"s1", "s2", "s3"}
+ParentEdges(ns) == {e \in SvcToks \X SvcToks : \E i \in Idx(ns) :
+                      /\ ns[i].f = "Parent" /\ ns[i].n = e[2] /\ ns[i].p # 0 /\ ns[ns[i].p].f = "HTTP" /\ ns[ns[i].p].p # 0
+                      /\ ns[ns[ns[i].p].p].f = "Service" /\ ns[ns[ns[i].p].p].n = e[1]}
+ParentStep(ns, S) == S \cup {e[2] : e \in {x \in ParentEdges(ns) : x[1] \in S}}
+ParentReach(ns, s) == LET S1 == {e[2] : e \in {x \in ParentEdges(ns) : x[1] = s}}
+                      IN ParentStep(ns, ParentStep(ns, S1))       \* three service tokens: two more steps close it
 CrashPats ==
   \* dsl.Server reports the misuse and then dereferences the nil API
   ("crash.server_outside_api"  :> Pat({"Server"}, AnyTok, AnyTok, AnyTok, Ctxs \ {"API"})) @@
@@ -856,12 +869,16 @@ Triggered(d, ns) ==
     \* merges the attribute into itself, copying the (now cyclic) object never ends
     [] d = "crash.extend_cycle_through_attribute" ->
          \E i \in Idx(ns) : /\ ns[i].f = "Extend" /\ ns[i].t \in UserToks /\ ns[i].p # 0 /\ ns[ns[i].p].f \in AttrDecl
+    \* services that are their own ancestor (Parent("s1") in s1, or s1 -> s2 -> s3 -> s1) and set a Path: preparing a route asks
+    \* the service for its base paths, which asks the parent's canonical route, which asks its service ... (only the two-service
+    \* cycle is reported, and only by validation, which runs after the endpoints are prepared)
+    [] d = "crash.parent_cycle" -> \E s \in SvcToks : s \in ParentReach(ns, s)
     [] OTHER -> FALSE
 CrashDevs == PatDevs \cup {"crash.extend_reference_nil", "crash.service_redefined_nil_dsl", "crash.response_attr_not_in_view", "crash.base_cycle",
                          "crash.unknown_view_on_result_type", "crash.error_response_headers_undeclared_error", "crash.grpc_message_empty_dsl",
                          "crash.grpc_message_attr_not_in_payload", "crash.body_empty_dsl", "crash.base_cycle_tag_lookup",
                          "crash.api_grpc_error_response", "crash.grpc_response_message_empty_dsl", "crash.enum_default_uncomparable",
-                         "crash.extend_cycle_through_attribute"}
+                         "crash.extend_cycle_through_attribute", "crash.parent_cycle"}
 AcceptDevs == {"accept.body_attribute", "accept.response_tag", "accept.request_mapping", "accept.response_mapping", "accept.grpc_mapping", "accept.scheme", "accept.view", "accept.error_response",
                "accept.scope"}
 KindOfAccept(d) == CASE d = "accept.body_attribute" -> "body_attribute" [] d = "accept.response_tag" -> "response_tag"
@@ -924,6 +941,9 @@ ChooseF == /\ pc = "f"
 NamePool(f) == IF Pools = "sec" /\ f = "Security" THEN {"sc1", "vsc1"}
                ELSE IF Pools = "rec" /\ f = "Type" /\ Pool(FT[f].ns) \ {nodes[i].n : i \in {j \in Idx(nodes) : nodes[j].f = "Type"}} # {}
                     THEN Pool(FT[f].ns) \ {nodes[i].n : i \in {j \in Idx(nodes) : nodes[j].f = "Type"}}
+               \* (steering of the parent walk: the services of a program have different names)
+               ELSE IF Pools = "par" /\ f = "Service" /\ Pool(FT[f].ns) \ {nodes[i].n : i \in {j \in Idx(nodes) : nodes[j].f = "Service"}} # {}
+                    THEN Pool(FT[f].ns) \ {nodes[i].n : i \in {j \in Idx(nodes) : nodes[j].f = "Service"}}
                ELSE Pool(FT[f].ns)
 ChooseN == /\ pc = "n" /\ \E n \in NamePool(cur.f) : cur' = [cur EXCEPT !.n = n]
            /\ pc' = "t" /\ UNCHANGED <<nodes, stack, mode, nmis, outcome, later>>
@@ -953,7 +973,7 @@ VarClasses(f) == LET canOpen == Pool(FT[f].vs) \cap OpenVars # {} /\ Len(stack) 
 \* (steering of the recursion walk: a type given by a token takes no function, a type / payload / result without a token takes one)
 VarClassesHere == LET V == VarClasses(cur.f) IN
                   IF Pools = "rec" /\ cur.t # "-" /\ "closed" \in V THEN {"closed"}
-                  ELSE IF Pools = "rec" /\ cur.t = "-" /\ "open" \in V /\ cur.f \in {"Type", "Payload", "StreamingPayload", "Result", "StreamingResult"} THEN {"open"}
+                  ELSE IF Pools \in {"rec", "par"} /\ cur.t = "-" /\ "open" \in V /\ cur.f \in {"Type", "Payload", "StreamingPayload", "Result", "StreamingResult", "Service", "Method"} THEN {"open"}
                   ELSE V
 ChooseC == /\ pc = "c" /\ \E c \in VarClassesHere : cur' = [cur EXCEPT !.c = c]
            /\ pc' = "v" /\ UNCHANGED <<nodes, stack, mode, nmis, outcome, later>>
